@@ -86,6 +86,8 @@ ATTR = [
     (r"^sshut", ["C13"]),
     (r"^shut-while-sibling-live$", ["C13", "C11"]),
     (r"^shut-", ["C13"]),
+    (r"^verdict-.*-claims-success-spec-", ["C04", "C10", "C02"]),
+    (r"^verdict-.*(-claims-timeout-spec-|-spec-timeout$)", ["C04", "C10", "C08"]),
     (r"^verdict-", ["C04", "C10"]),
     (r"^diagnosis$", ["C04"]),
     (r"^run-end-early$", ["C02", "C04", "C09"]),
@@ -140,10 +142,12 @@ def record(scenarios, workdir, tag):
 
 ACC = re.compile(r'^<<"ACC", (\d+)>>')
 AT = re.compile(r'^<<"AT", (\d+), (\d+), "([^"]*)", (-?\d+), "([^"]*)">>')
+SYM = re.compile(r'^<<"SYM", (\d+), \{(.*)\}>>')
 
 
 def validate(trf, workdir, diag=False):
-    """-> (accepted tids, frontier {tid: (l, {(k, n, why)})}, generated, distinct)"""
+    """-> (accepted tids, frontier {tid: (l, {(k, n, why)})}, generated, distinct);
+    with diag=True the frontier dict also has key ("sym", tid) -> list of properties"""
     cfg = "OrchestraTraceDiag.cfg" if diag else "OrchestraTrace.cfg"
     rc, out = tlc.run("OrchestraTrace.tla", cfg, env={"TRACE_FILE": trf}, workers=1,
                       scratch=workdir, heap="3g")
@@ -155,6 +159,10 @@ def validate(trf, workdir, diag=False):
         m = ACC.match(line)
         if m:
             acc.add(int(m.group(1)))
+            continue
+        m = SYM.match(line)
+        if m:
+            front[("sym", int(m.group(1)))] = re.findall(r'"(C\d+)"', m.group(2))
             continue
         m = AT.match(line)
         if m:
@@ -191,7 +199,8 @@ def shard_job(args):
                 raise tlc.TlcFailure("trace accepted by the diagnosis pass only")
             pos, items = front.get(j + 1, (0, {("?", 0, "no-frontier")}))
             rejected.append({"scenario": scenarios[i], "trace": traces[i],
-                             "at": pos, "frontier": sorted(items)})
+                             "at": pos, "frontier": sorted(items),
+                             "symptoms": front.get(("sym", j + 1), [])})
     os.remove(trf)
     return traces, rejected, gen, dist
 
